@@ -9,7 +9,8 @@
 EXTENDS LowPass, TLC, Json, IOUtils
 CONSTANTS Tau,       \* relative tolerance, float-evaluated rational formulas          "1/10000000000"
           TauLog,    \* relative tolerance where dadi goes through lgamma / exp        "1/1000000000"
-          DeepDepth  \* "deep coverage": every individual has at least this many reads  50
+          DeepDepth, \* "deep coverage": every individual has at least this many reads  50
+          KSigma     \* simulated regime at deep coverage: allowed deviation in standard errors  8
 
 Trace == JsonDeserialize(IOEnv.TRACE_FILE)
 VARIABLE i
@@ -156,6 +157,45 @@ FDeep(r) ==
               ELSE {}) \cup
              F("DeepTotalNotIncreased", IsNumSeq(o.d) /\ TotalNotIncreased(o, s))
 
+\* ---- deep coverage, simulated regime: the corrected model is within the sampling error of the subsampled model ----
+\* Model entry j (allele counts jx) is replaced by M[j] * D_j, D_j = histogram of N_j simulated loci, stratified over the
+\* genotype configurations: stratum s gets int(nsim p_s) loci, so N_j >= nlow_j = nsim - (number of configurations of j).
+\* At deep coverage every locus is called correctly, hence E D_j[k] = q_j[k] (row of the subsampling matrices) up to the
+\* stratum-weight truncation |w_s - p_s| summing to at most 2 nparts_j / nlow_j, and Var D_j[k] <= q(1-q)/nlow_j.
+\* Accepted iff for every cell k
+\*    |out[k] - lim[k]| <= bias + KSigma * sqrt(V[k]),
+\*    bias = sum_j M[j] 2 nparts_j / nlow_j + 1e-12 max|lim|,   V[k] = sum_j M[j]^2 (q_j[k](1-q_j[k]) + 1/nlow_j) / nlow_j
+\* (the 1/nlow_j term keeps the bound above a few loci for rare cells); evaluated without square roots.
+FDeepSim(r) ==
+    IF Raised(r) THEN {"DeepSimRaised"}
+    ELSE LET s == r.in.s
+             P == Len(r.in.nseq)
+             Fs == [p \in 1..P |-> RNorm(r.in.F[p])]
+             o == r.out.s
+             sh == s.sh
+             sh2 == ShapeOf(r.in.nsub)
+             d0 == Zeroed(s)
+             pj == Tab([p \in 1..P |-> ProjectionMatrix(r.in.nseq[p], r.in.nsub[p], Fs[p])])
+             lim == ContractAll(sh, d0, Tab([p \in 1..P |-> <<pj[p]>>]), 1)
+             nparts == Tab([j \in 1..Size(sh) |-> LET jx == Unflat(sh, j) IN
+                              IProd(Tab([p \in 1..P |-> Cardinality(Configs(jx[p], r.in.nseq[p] \div 2))]))])
+             enough == \A j \in 1..Size(sh) : r.in.nsim - nparts[j] >= 1
+             nlow == Tab([j \in 1..Size(sh) |-> RInt(r.in.nsim - nparts[j])])
+             bias == RAdd(RSum([j \in 1..Size(sh) |-> RDiv(RMul(d0[j], RInt(2 * nparts[j])), nlow[j])]),
+                          RMul("1/1000000000000", RSeqMaxAbs(lim.d)))
+             q(j, k) == LET jx == Unflat(sh, j) kx == Unflat(sh2, k) IN IProdR([p \in 1..P |-> pj[p][jx[p] + 1][kx[p] + 1]])
+             var(k) == RSum([j \in 1..Size(sh) |-> IF d0[j] = "0" THEN "0" ELSE
+                              LET qq == q(j, k) IN RDiv(RMul(RSq(d0[j]), RAdd(RMul(qq, RSub("1", qq)), RDiv("1", nlow[j]))), nlow[j])])
+             within(k) == LET ex == RSub(RAbs(RSub(o.d[k], lim.d[k])), bias) IN
+                          IsNum(o.d[k]) /\ (RSign(ex) <= 0 \/ RLeq(RSq(ex), RMul(RInt(KSigma * KSigma), var(k))))
+         IN  F("DeepInput", \A p \in 1..P : IsDeep(r.in.covs[p])) \cup
+             F("DeepSimEnoughSimulations", enough) \cup
+             F("DeepSimShape", o.sh = sh2 /\ Len(o.d) = Size(sh2)) \cup
+             (IF enough /\ o.sh = sh2 /\ Len(o.d) = Size(sh2) /\ IsNumSeq(o.d)
+              THEN F("DeepSimWithinSamplingError", \A k \in 2..Size(sh2) : within(k)) ELSE {}) \cup
+             F("DeepSimNonNegative", IsNumSeq(o.d) /\ NonNegSeq(o.d)) \cup
+             F("DeepTotalNotIncreased", IsNumSeq(o.d) /\ TotalNotIncreased(o, s))
+
 \* ---- simulated regime: closure only (the path is random) ----
 FSimCalling(r) ==
     IF Raised(r) THEN {"SimRaised"}
@@ -203,6 +243,7 @@ Failed(r) ==
       [] r.op = "precalc"     -> FPrecalc(r)
       [] r.op = "apply"       -> FApply(r)
       [] r.op = "deep"        -> FDeep(r)
+      [] r.op = "deep_sim"    -> FDeepSim(r)
       [] r.op = "sim_calling" -> FSimCalling(r)
       [] r.op = "sim_reads"   -> FSimReads(r)
       [] r.op = "subsample"   -> FSubsample(r)
